@@ -187,7 +187,7 @@ func shapeKey(v Value) string {
 		return fmt.Sprintf("s%d", len(x.b))
 	case *Ptr:
 		if x.sym != nil {
-			return fmt.Sprintf("p%d%v[t%d]", x.obj, x.path, x.sym.id)
+			return fmt.Sprintf("p%d%v[t%d+%d<%d]", x.obj, x.path, x.sym.id, x.symOff, x.symN)
 		}
 		return fmt.Sprintf("p%d%v", x.obj, x.path)
 	case *Slice:
